@@ -7,6 +7,7 @@ mod c08;
 mod c09;
 mod c10;
 mod c17;
+mod c20;
 mod transports;
 mod selftest;
 
@@ -30,6 +31,7 @@ fn main() {
         "C09" => c09::run(tier),
         "C10" => c10::run(tier),
         "C17" => c17::run(tier),
+        "C20" => c20::run(tier),
         "load-probe" => c06::load_probe_child(&args[3]),
         other => {
             eprintln!("unknown sub-command {}", other);
